@@ -205,13 +205,35 @@ func fromEntry(ctx context.Context, services coreiface.CoreAPI, sourceEntries []
 		sliced = uniques
 	}
 
+	// Put back the source entries that were cut off, making room for them by
+	// dropping the oldest entries that were not given by the caller
 	missingSourceEntries := entry.Difference(sliced, sourceEntries)
-	result := append(missingSourceEntries, entrySliceRange(sliced, len(missingSourceEntries), len(sliced))...)
+	result := append(missingSourceEntries, dropOldestOthers(sliced, sourceEntries, len(missingSourceEntries))...)
 
 	return &Snapshot{
 		ID:     result[len(result)-1].GetLogID(),
 		Values: result,
 	}, nil
+}
+
+// dropOldestOthers removes the first n entries of a list that are not in keep.
+func dropOldestOthers(entries []iface.IPFSLogEntry, keep []iface.IPFSLogEntry, n int) []iface.IPFSLogEntry {
+	kept := map[string]struct{}{}
+	for _, e := range keep {
+		kept[e.GetHash().String()] = struct{}{}
+	}
+
+	result := make([]iface.IPFSLogEntry, 0, len(entries))
+	for _, e := range entries {
+		if _, ok := kept[e.GetHash().String()]; !ok && n > 0 {
+			n--
+			continue
+		}
+
+		result = append(result, e)
+	}
+
+	return result
 }
 
 // lastEntries returns the last n entries of a list, none if n is zero.
